@@ -7,7 +7,7 @@
    (b) the definition of what the run-time syscall monitor accepts.  The domain of each finite theorem is stated
    in it: `Reach lock_graph ship_roots`, `In s effect_sites`.  That no third-party crate misbehaves at run time is
    observed (strace), never proved. *)
-Require Import Base EffectsBase Effects Tables_effects EffectsProofs EffectsChecked.
+Require Import Base EffectsBase Effects Tables_effects EffectsProofs EffectsChecked EffectsSave EffectsSaveProofs.
 From Coq Require Import String Ascii.
 Open Scope string_scope.
 Open Scope list_scope.
@@ -47,8 +47,11 @@ Check C10_net_sites : forall s, In s effect_sites -> is_net_kind (s_kind s) = tr
          mksite "harper-ls/src/main.rs" "main" KNet "listener.accept" "" "TcpListener::bind(DEFAULT_ADDRESS).await.unwrap()" "" ].
 Print Assumptions C10_net_sites.
 
-(* file-creating / -modifying APIs occur only in save_dict and save_stats, on the path argument resp. stats_path (and
-   mkdir -p of their parent); save_dict is only called with user_dict_path or file_dict_path.join(file_dict_name(url));
+(* file-creating / -modifying APIs occur only in save_dict and save_stats: save_dict creates `tmp_path` =
+   path.with_file_name(file_name(path) + ".tmp") — the sibling in the same directory —, renames it to `path`, and
+   mkdir -p's path.parent(); save_stats appends to config.stats_path and mkdir -p's its parent; every local these path
+   expressions mention is computed as the KLocal rows of allowed_write_sites say; save_dict is only called with
+   &config.user_dict_path or config.file_dict_path.join(file_dict_name(url)); save_stats only from shutdown;
    and the three path settings are stored into the fields of the same meaning (the F18 regression) *)
 Theorem C10_write_sites :
   (forall s, In s effect_sites -> is_write_kind (s_kind s) = true -> In s allowed_write_sites) /\
@@ -133,12 +136,87 @@ Print Assumptions C10_stray_site_breaks.
 
 (* the run-time oracle (its extracted form is what the harness's verdicts are compared with): a trace it accepts has
    no socket / bind / datagram outside AF_UNIX, no connect at all, opens no resolver file, and creates, modifies,
-   renames, removes only the configured user-dictionary, file-dictionary and statistics files (mkdir: only the
-   directories leading to them) *)
+   removes only the configured user dictionary, its ".tmp" sibling in the same directory, the statistics file and
+   files directly inside the file-dictionary directory; renames only `<dictionary>.tmp` over `<dictionary>`
+   (mkdir: only the directories leading to a configured location).  ev_safe / PathAllowed / RenameAllowed are in
+   Proofs/EffectsProofs.v *)
 Theorem C10_monitor_sound : forall c tr, trace_ok c tr = true -> Forall (ev_safe c) tr.
 Proof. exact trace_ok_sound. Qed.
 Check C10_monitor_sound : forall c tr, trace_ok c tr = true -> Forall (ev_safe c) tr.
 Print Assumptions C10_monitor_sound.
+
+(* an accepted rename never leaves the set of files that may be written (the ".tmp" sibling of a file directly inside
+   the file-dictionary directory is again directly inside it; that of the user dictionary is the one extra path) *)
+Theorem C10_monitor_rename_inside : forall c a b,
+  judge c (EvRename a b) = VOk -> path_allowed c a = true /\ path_allowed c b = true.
+Proof. exact judge_rename_inside. Qed.
+Check C10_monitor_rename_inside : forall c a b,
+  judge c (EvRename a b) = VOk -> path_allowed c a = true /\ path_allowed c b = true.
+Print Assumptions C10_monitor_rename_inside.
+
+(* ---- where a dictionary is saved (Model/EffectsSave.v: file_dict_name, PathBuf::join, save_dict's temporary sibling
+   as the code computes them now; compared per add-to-dictionary command with the system calls really issued) ---- *)
+
+(* the file-dictionary name never contains a path separator, whatever the document's file path is: joined to the
+   file-dictionary directory it is at most ONE component (it cannot be absolute, cannot climb with `..`) *)
+Theorem C10_file_dict_name_flat : forall fp x, In x (file_dict_name fp) -> x <> slash.
+Proof. exact file_dict_name_ns. Qed.
+Check C10_file_dict_name_flat : forall fp x, In x (file_dict_name fp) -> x <> slash.
+Print Assumptions C10_file_dict_name_flat.
+
+(* HarperAddToFileDict for ANY document whose URL has a file path with at least one component, fileDictPath being an
+   absolute path without `..` other than the root: save_dict opens `<dir>/<name>.tmp` and renames it onto
+   `<dir>/<name>`, both directly inside the configured directory, and the monitor accepts exactly that *)
+Theorem C10_file_dict_save_inside : forall c filedir fp,
+  comps filedir <> [] -> (forall x, In x (comps filedir) -> x <> dotdot) -> m_filedir c = render (comps filedir) ->
+  file_dict_name fp <> [] ->
+  let d := m_filedir c ++ slash :: file_dict_name fp in
+  file_dict_plan filedir (Some fp) = Some (d ++ tmp_suffix, d ++ tmp_suffix, d) /\
+  path_allowed c (d ++ tmp_suffix) = true /\ path_allowed c d = true /\ rename_allowed c (d ++ tmp_suffix) d = true.
+Proof. exact file_dict_save_inside. Qed.
+Check C10_file_dict_save_inside : forall c filedir fp,
+  comps filedir <> [] -> (forall x, In x (comps filedir) -> x <> dotdot) -> m_filedir c = render (comps filedir) ->
+  file_dict_name fp <> [] ->
+  let d := m_filedir c ++ slash :: file_dict_name fp in
+  file_dict_plan filedir (Some fp) = Some (d ++ tmp_suffix, d ++ tmp_suffix, d) /\
+  path_allowed c (d ++ tmp_suffix) = true /\ path_allowed c d = true /\ rename_allowed c (d ++ tmp_suffix) d = true.
+Print Assumptions C10_file_dict_save_inside.
+
+(* HarperAddToUserDict, userDictPath an absolute path without `..` that names a file: `<user>.tmp`, renamed onto `<user>` *)
+Theorem C10_user_dict_save_inside : forall c user,
+  comps user <> [] -> (forall x, In x (comps user) -> x <> dotdot) -> m_user c = render (comps user) ->
+  user_dict_plan user = (m_user c ++ tmp_suffix, m_user c ++ tmp_suffix, m_user c) /\
+  path_allowed c (m_user c ++ tmp_suffix) = true /\ path_allowed c (m_user c) = true /\
+  rename_allowed c (m_user c ++ tmp_suffix) (m_user c) = true.
+Proof. exact user_dict_save_inside. Qed.
+Check C10_user_dict_save_inside : forall c user,
+  comps user <> [] -> (forall x, In x (comps user) -> x <> dotdot) -> m_user c = render (comps user) ->
+  user_dict_plan user = (m_user c ++ tmp_suffix, m_user c ++ tmp_suffix, m_user c) /\
+  path_allowed c (m_user c ++ tmp_suffix) = true /\ path_allowed c (m_user c) = true /\
+  rename_allowed c (m_user c ++ tmp_suffix) (m_user c) = true.
+Print Assumptions C10_user_dict_save_inside.
+
+(* FINDING FC10a (open; fixes/FC10a-empty-file-dict-name.diff): the hypothesis `file_dict_name fp <> []` above cannot be
+   dropped.  For the document URI `file:///` (file path "/", no component) the name is empty, file_dict_path.join("")
+   is "<dir>/", its file name is the directory's own name, and save_dict creates `<dir>.tmp` NEXT TO the configured
+   file-dictionary directory (then fails to rename it onto "<dir>/"): a file outside every configured location.
+   Replayed on the implementation by corpus/C10/fc10a_root_uri.json. *)
+Theorem C10_file_dict_empty_name_refuted :
+  let c := mkcfg (bytes_of_string "/s/cfg/user.txt") (bytes_of_string "/s/fd") (bytes_of_string "/s/data/stats.txt") [] in
+  exists fp, file_dict_name fp = [] /\
+    file_dict_plan (m_filedir c) (Some fp) =
+      Some (bytes_of_string "/s/fd.tmp", bytes_of_string "/s/fd.tmp", bytes_of_string "/s/fd") /\
+    judge c (EvOpen true (bytes_of_string "/s/fd.tmp")) = VWrite /\
+    judge c (EvRename (bytes_of_string "/s/fd.tmp") (bytes_of_string "/s/fd")) = VWrite.
+Proof. exact file_dict_empty_name_refuted. Qed.
+Check C10_file_dict_empty_name_refuted :
+  let c := mkcfg (bytes_of_string "/s/cfg/user.txt") (bytes_of_string "/s/fd") (bytes_of_string "/s/data/stats.txt") [] in
+  exists fp, file_dict_name fp = [] /\
+    file_dict_plan (m_filedir c) (Some fp) =
+      Some (bytes_of_string "/s/fd.tmp", bytes_of_string "/s/fd.tmp", bytes_of_string "/s/fd") /\
+    judge c (EvOpen true (bytes_of_string "/s/fd.tmp")) = VWrite /\
+    judge c (EvRename (bytes_of_string "/s/fd.tmp") (bytes_of_string "/s/fd")) = VWrite.
+Print Assumptions C10_file_dict_empty_name_refuted.
 
 (* ---- non-vacuity ---- *)
 Example C10_reach_nontrivial :
@@ -154,18 +232,32 @@ Proof. exact dev_only_client_not_shipped. Qed.
 Example C10_sites_nontrivial :
   List.length (filter (fun s => is_net_kind (s_kind s)) effect_sites) = 3 /\
   4 <= List.length (filter (fun s => is_write_kind (s_kind s)) effect_sites) /\
+  5 <= List.length (filter (fun s => skind_eqb (s_kind s) KLocal) effect_sites) /\
+  In (mksite "harper-ls/src/dictionary_io.rs" "save_dict" KLocal "tmp_name.push" """.tmp""" "" "") effect_sites /\
   List.length (filter (fun s => skind_eqb (s_kind s) KProcess) effect_sites) = 1 /\
   100 <= scanned_files.
 Proof. exact sites_nontrivial. Qed.
 
-(* the monitor accepts a session that saves a dictionary and the statistics, and rejects a stray write / a socket *)
+(* the monitor accepts a session that saves a dictionary (temporary sibling + rename) and the statistics, and rejects
+   a stray write / a socket / any other temporary name or rename *)
 Example C10_monitor_examples :
   let c := mkcfg (bytes_of_string "/s/cfg/user.txt") (bytes_of_string "/s/fd") (bytes_of_string "/s/data/stats.txt") [] in
-  trace_ok c [EvMkdir (bytes_of_string "/s/cfg"); EvOpen true (bytes_of_string "/s/cfg/user.txt");
-              EvMkdir (bytes_of_string "/s/fd"); EvOpen true (bytes_of_string "/s/fd/tmp%doc.md%");
+  trace_ok c [EvMkdir (bytes_of_string "/s/cfg"); EvOpen true (bytes_of_string "/s/cfg/user.txt.tmp");
+              EvRename (bytes_of_string "/s/cfg/user.txt.tmp") (bytes_of_string "/s/cfg/user.txt");
+              EvMkdir (bytes_of_string "/s/fd"); EvOpen true (bytes_of_string "/s/fd/tmp%doc.md%.tmp");
+              EvRename (bytes_of_string "/s/fd/tmp%doc.md%.tmp") (bytes_of_string "/s/fd/tmp%doc.md%");
               EvOpen false (bytes_of_string "/etc/localtime"); EvOpen true (bytes_of_string "/s/data/stats.txt")] = true /\
   judge c (EvOpen true (bytes_of_string "/tmp/dump.txt")) = VWrite /\
   judge c (EvOpen true (bytes_of_string "/s/fd/sub/x")) = VWrite /\
+  judge c (EvOpen true (bytes_of_string "/s/fd.tmp")) = VWrite /\
+  judge c (EvOpen true (bytes_of_string "/s/data/stats.txt.tmp")) = VWrite /\
+  judge c (EvOpen true (bytes_of_string "/s/cfg/user.txt.tmp~")) = VWrite /\
+  judge c (EvOpen true (bytes_of_string "/s/cfg/.tmp")) = VWrite /\
+  judge c (EvOpen true (bytes_of_string "/s/proj/draft.md%")) = VWrite /\
+  judge c (EvRename (bytes_of_string "/s/cfg/user.txt") (bytes_of_string "/s/cfg/user.txt.tmp")) = VWrite /\
+  judge c (EvRename (bytes_of_string "/tmp/x.tmp") (bytes_of_string "/s/cfg/user.txt")) = VWrite /\
+  judge c (EvRename (bytes_of_string "/s/fd/a%.tmp") (bytes_of_string "/s/fd/b%")) = VWrite /\
+  judge c (EvRename (bytes_of_string "/s/data/stats.txt.tmp") (bytes_of_string "/s/data/stats.txt")) = VWrite /\
   judge c (EvSocket AF_INET) = VNet /\ judge c (EvConnect AF_INET6 []) = VNet /\ judge c (EvSend AF_INET) = VNet /\
   judge c (EvOpen false (bytes_of_string "/etc/resolv.conf")) = VResolve /\
   judge c (EvMkdir (bytes_of_string "/s/other")) = VWrite.
@@ -203,3 +295,16 @@ Proof.
   - intros H. cbn in H. repeat (destruct H as [H | H]; [inversion H |]). exact H.
   - vm_compute. reflexivity.
 Qed.
+
+(* the hypotheses of the save theorems are satisfiable (a fileDictPath with a trailing slash, a userDictPath with `//`
+   and `/./`, a document path with `..` and non-ASCII), and what PathBuf::join would do with an absolute or `..` name
+   if file_dict_name ever produced one (the seeded change c10-2): the write leaves the configured directory *)
+Example C10_save_plan_examples :
+  let b := fun s : string => bytes_of_string s in
+  file_dict_name (b "/home/u/proj/../dö c.md") = b "home%u%proj%..%dö c.md%" /\
+  file_dict_plan (b "/s/fd/") (Some (b "/home/u/a.md")) = Some (b "/s/fd/home%u%a.md%.tmp", b "/s/fd/home%u%a.md%.tmp", b "/s/fd/home%u%a.md%") /\
+  file_dict_plan (b "/s/fd") None = None /\
+  user_dict_plan (b "/s//cfg/./user.txt") = (b "/s/cfg/user.txt.tmp", b "/s/cfg/user.txt.tmp", b "/s/cfg/user.txt") /\
+  save_plan (join_comps (b "/s/fd") (b "/home/u/draft.md%")) = (b "/home/u/draft.md%.tmp", b "/home/u/draft.md%.tmp", b "/home/u/draft.md%") /\
+  save_plan (join_comps (b "/s/fd") (b "../../x%")) = (b "/x%.tmp", b "/x%.tmp", b "/x%").
+Proof. exact save_plan_examples. Qed.
